@@ -81,6 +81,57 @@ def evaluate(spec):
     return {"sig": sig, "detail": detail, "nontrivial": nontrivial, "labels": labels, "evals": 2}
 
 
+def evaluate_pair(spec):
+    """the SAME packet times with sub-microsecond parts (multiples of 1 ns, or of 2^-k s for k <= 9) in two containers that can both
+    represent them exactly - nanosecond legacy pcap and pcapng with a fine if_tsresol: the exports must be identical (no +-1 us allowance:
+    whatever rounding rule is used, it must not depend on the container)"""
+    b = scenario.build_conns(spec)
+    pkts = scenario.merge_packets(b.per_conn, spec.get("order"))
+    k = spec["bin"]
+    u = Fraction(1, 1 << k) if k else Fraction(1, 10 ** 9)
+    t = Fraction(T0)
+    steps = spec["tsteps"]
+    for i, p in enumerate(pkts):
+        t += u * max(1 + steps[i % len(steps)], -(-Fraction(2, 1_000_000) // u))
+        p.ts = t
+    b.pkts = pkts
+    wd = engine.workdir()
+    conts = [{"fmt": "pcap", "endian": spec["endians"][0], "nano": True},
+             {"fmt": "pcapng", "endian": spec["endians"][1], "tsresol": 9, "tsoffset": spec["offset"], "offset_first": spec["offset_first"], "extra": spec["extra"]}]
+    if k:
+        conts.append({"fmt": "pcapng", "endian": spec["endians"][0], "tsresol": 0x80 | k, "tsoffset": 0, "extra": []})
+    outs = []
+    for ci, c in enumerate(conts):
+        o = oracle.run_e2e(b, wd, pkts=pkts, container=c, name="pair%d" % ci)
+        f = oracle.base_failure(o)
+        if f:
+            return {"sig": f"pair variant ({c['fmt']}): " + f, "detail": (o.run.exc or "")[-300:], "nontrivial": True, "evals": ci + 1}
+        outs.append([(p.ts, p.sip, p.dip, p.sport, p.dport, p.seq, p.ack, p.flags, p.payload) for p in o.pkts])
+    sig, detail = None, ""
+    for ci in range(1, len(outs)):
+        if outs[ci] != outs[0]:
+            d = next((i for i, (x, y) in enumerate(zip(outs[0], outs[ci])) if x != y), None)
+            what = "timestamps" if d is not None and outs[0][d][1:] == outs[ci][d][1:] else "packets"
+            sig = f"same sub-microsecond packet times export different {what} from nanosecond pcap and fine-resolution pcapng"
+            detail = f"container {conts[ci]} vs nanosecond pcap: packet {d}: {outs[ci][d][0] if d is not None else '-'} vs {outs[0][d][0] if d is not None else '-'}"
+            break
+    half = any((Fraction(p.ts) * 1_000_000) % 1 >= Fraction(1, 2) for p in pkts)
+    return {"sig": sig, "detail": detail, "nontrivial": bool(outs[0]) and half, "labels": ["pair", "bin:%d" % k, "half-us" if half else "below-half"], "evals": len(conts)}
+
+
+@st.composite
+def pair_spec(draw):
+    sc = draw(spec_strategy())
+    sc.pop("cont", None)
+    sc["bin"] = draw(st.sampled_from([0, 0, 0, 3, 7, 9]))
+    sc["endians"] = [draw(st.sampled_from(["<", ">"])), draw(st.sampled_from(["<", ">"]))]
+    sc["offset"] = draw(st.sampled_from([0, 0, 3600, -5]))
+    sc["offset_first"] = draw(st.booleans())
+    sc["extra"] = [[draw(st.integers(0, 30)), draw(st.sampled_from([4, 5, 0x00000BAD])), 4 * draw(st.integers(0, 10))] for _ in range(draw(st.integers(0, 2)))]
+    sc["tsteps"] = draw(st.lists(st.one_of(st.integers(0, 999), st.integers(0, 5_000_000)), min_size=1, max_size=8))
+    return sc
+
+
 @st.composite
 def container(draw):
     fmt = draw(st.sampled_from(["pcapng", "pcapng", "pcapng", "pcap"]))
@@ -119,10 +170,12 @@ def spec_strategy(draw):
 
 def stages(tier):
     quick = tier == "quick"
-    return [Stage("containers", evaluate, strategy=lambda t: spec_strategy(), examples=500 if quick else 10000)]
+    return [Stage("containers", evaluate, strategy=lambda t: spec_strategy(), examples=500 if quick else 10000),
+            Stage("same-times-two-containers", evaluate_pair, strategy=lambda t: pair_spec(), examples=300 if quick else 6000)]
 
 
-RULE = ("one TLS/QUIC scenario written as pcapng-LE-microseconds (reference) and as a drawn variant: pcapng LE/BE x if_tsresol 10^-0..10^-9 / "
+RULE = ("stage same-times-two-containers: the same sub-microsecond packet times in a nanosecond legacy pcap and in pcapng with if_tsresol 9 (and 2^-k) "
+        "must export identically; stage containers: one TLS/QUIC scenario written as pcapng-LE-microseconds (reference) and as a drawn variant: pcapng LE/BE x if_tsresol 10^-0..10^-9 / "
         "2^-1..2^-30 x if_tsoffset x NRB / ISB / custom / unknown blocks at drawn positions, or legacy pcap LE/BE (micro- and nanosecond magic) with "
         "-l; packet times are exact rationals, multiples of the variant's unit; oracle: same exported packets, same timestamps (exactly when the "
         "times are integer microseconds - then also a byte-identical output file - else within 1 us).  Non-trivial: variant differs from the "
